@@ -1,0 +1,89 @@
+//go:build verif && !gui
+
+// Hooks for the deterministic-simulation checks in /verif (build tag verif).
+// Add-only: with the tag off this file does not exist for the compiler.
+
+package dbms
+
+import (
+	"crypto/tls"
+	"crypto/x509"
+	"errors"
+	"net"
+	"strings"
+
+	"github.com/apmckinlay/gsuneido/core"
+	"github.com/apmckinlay/gsuneido/dbms/mux"
+	"golang.org/x/time/rate"
+)
+
+var verifConfig *tls.Config
+
+// VerifStartServer does what Server does before it starts accepting connections:
+// it creates the workers and the TLS configuration and starts background().
+func VerifStartServer() {
+	workers = mux.NewWorkers(doRequest)
+	cert, err := tls.X509KeyPair(ServerCert, ServerKey)
+	if err != nil {
+		panic("verif: embedded key pair: " + err.Error())
+	}
+	verifConfig = &tls.Config{Certificates: []tls.Certificate{cert}}
+	go background()
+}
+
+// VerifNewServerConn handles one accepted connection with the real newServerConn
+// (hello exchange, TLS upgrade, unauthorized wrapper, mux reader).
+// It returns when the connection ends.
+func VerifNewServerConn(dbms *DbmsLocal, conn net.Conn) {
+	newServerConn(dbms, conn, verifConfig)
+}
+
+// VerifConnectClient is the part of ConnectClient after dialing:
+// the hello exchange and the TLS upgrade, on a connection supplied by the caller.
+func VerifConnectClient(conn net.Conn) (net.Conn, error) {
+	conn.Write(hello())
+	if errmsg := checkHello(conn); errmsg != "" {
+		return nil, errors.New(errmsg)
+	}
+	caCertPool := x509.NewCertPool()
+	if !caCertPool.AppendCertsFromPEM(ServerCert) {
+		return nil, errors.New("failed to append embedded cert to pool")
+	}
+	config := &tls.Config{RootCAs: caCertPool, ServerName: "localhost"}
+	tlsConn := tls.Client(conn, config)
+	if err := tlsConn.Handshake(); err != nil {
+		return nil, errors.New("TLS handshake failed: " + err.Error())
+	}
+	return tlsConn, nil
+}
+
+// VerifResetServer clears process-global server state between simulated runs.
+func VerifResetServer() {
+	serverConnsLock.Lock()
+	serverConns = make(map[uint32]*serverConn)
+	serverConnsLock.Unlock()
+	tokensLock.Lock()
+	tokens = make(map[string]bool)
+	tokensLock.Unlock()
+	lastNum.Store(0)
+	workers = nil
+	core.DbmsAuth = false
+	// a rate.Limiter remembers the time of its last event
+	authLimiter = rate.NewLimiter(rate.Limit(4), 1)
+	mux.VerifReset()
+}
+
+// VerifUnauthorized reports whether every connection in the list of remote
+// addresses is still wrapped as unauthorized (for the oracle of the unauthorized-client check).
+func VerifUnauthorized(connId uint32) (unauth bool, found bool) {
+	serverConnsLock.Lock()
+	defer serverConnsLock.Unlock()
+	sc := serverConns[connId]
+	if sc == nil {
+		return false, false
+	}
+	_, unauth = sc.dbms.(*DbmsUnauth)
+	return unauth, true
+}
+
+var _ = strings.HasPrefix
